@@ -126,6 +126,110 @@ def _alt_defs(cfg: CFG, n: Node) -> List[Tuple[ast.AST, List[Tuple[ast.AST, bool
     return [(a, _expr_guards(cfg, a)) for a in _arms(v) if a is not None]
 
 
+# ------------------------------------------------------------------------------------------------ one verdict for every way of writing a two-configuration function
+# A method that behaves in one of two ways depending on a flag of the object can be written with a conditional expression, an if / else, a one-armed `if`
+# that amends a value computed for both configurations, or an early return for one configuration followed by the code of the other.  The rules about such a
+# method look at the code that RUNS in each configuration: the function with every choice on the flag resolved.  What they say about "the squashed path" is
+# then a statement about the configuration, not about the number or the shape of the branches the source happens to have.
+def _assume(fn: ast.AST, key: str, value: bool) -> ast.AST:
+    """A copy of the function as it runs when the attribute `key` is `value`: every choice on it (the test of an `if` statement or of a conditional
+    expression: the attribute itself, a local bound once to it, under `not` / `and` / `or`) is resolved and only the code of the arm taken is kept."""
+    stores: Dict[str, int] = {}
+    for n in walk_no_nested(fn):
+        if isinstance(n, ast.Name) and isinstance(n.ctx, ast.Store):
+            stores[n.id] = stores.get(n.id, 0) + 1
+    params = {a.arg for a in ast.walk(fn.args) if isinstance(a, ast.arg)}
+    alias = {n.targets[0].id for n in walk_no_nested(fn) if isinstance(n, ast.Assign) and len(n.targets) == 1 and isinstance(n.targets[0], ast.Name)
+             and stores.get(n.targets[0].id) == 1 and n.targets[0].id not in params and dotted(n.value) == key}
+
+    def reduce(t: ast.AST):
+        """True / False when the test is decided by the assumption, what is left of it otherwise."""
+        if dotted(t) == key or (isinstance(t, ast.Name) and t.id in alias):
+            return value
+        if isinstance(t, ast.UnaryOp) and isinstance(t.op, ast.Not):
+            r = reduce(t.operand)
+            return (not r) if isinstance(r, bool) else ast.copy_location(ast.UnaryOp(op=ast.Not(), operand=r), t)
+        if isinstance(t, ast.BoolOp):
+            conj, rest = isinstance(t.op, ast.And), []
+            for v in t.values:
+                r = reduce(v)
+                if isinstance(r, bool):
+                    if r != conj:
+                        return r  # False decides a conjunction, True a disjunction
+                    continue
+                rest.append(r)
+            return conj if not rest else rest[0] if len(rest) == 1 else ast.copy_location(ast.BoolOp(op=t.op, values=rest), t)
+        return t
+
+    class _Resolve(ast.NodeTransformer):
+        def visit_If(self, s: ast.If):
+            r = reduce(s.test)
+            if isinstance(r, bool):
+                out: List[ast.stmt] = []
+                for x in (s.body if r else s.orelse):
+                    y = self.visit(x)
+                    out += y if isinstance(y, list) else [y]
+                return out
+            s.test = r
+            self.generic_visit(s)
+            return s
+
+        def visit_IfExp(self, e: ast.IfExp):
+            r = reduce(e.test)
+            if isinstance(r, bool):
+                return self.visit(e.body if r else e.orelse)
+            e.test = r
+            self.generic_visit(e)
+            return e
+
+    import copy
+    new = _Resolve().visit(copy.deepcopy(fn))
+    for x in ast.walk(new):  # a block all of whose statements belonged to the other configuration
+        if isinstance(x, (ast.stmt, ast.ExceptHandler)) and isinstance(getattr(x, "body", None), list) and not x.body:
+            x.body = [ast.copy_location(ast.Pass(), x)]
+    return ast.fix_missing_locations(new)
+
+
+def _operand(tb: TermBuilder, a: Optional[Atom], fname: str) -> Optional[Poly]:
+    """x for an atom that stands for `x.<fname>(...)` or `torch.<fname>(x, ...)` (None for anything else)."""
+    if a is None or a.kind != "call" or a.name != fname or not isinstance(a.node, ast.Call) or not a.sub:
+        return None
+    if isinstance(a.node.func, ast.Attribute) and dotted(a.node.func.value) in ("torch", "np"):
+        return a.sub[1] if len(a.sub) > 1 and a.node.args else None
+    return a.sub[0] if isinstance(a.node.func, ast.Attribute) else None
+
+
+def _is_tanh_correction(tb: TermBuilder, a: Atom, action: str) -> bool:
+    """The atom stands for sum over dim 1 of log(1 - action^2 + eps), 0 < eps <= 1e-3 — however the sum, the logarithm and the square are spelled."""
+    v = a.node
+    summed = _operand(tb, a, "sum")
+    if summed is None:
+        return False
+    dim = const_value(get_kw(v, "dim", 1 if dotted(v.func.value) in ("torch", "np") else 0))
+    if isinstance(dim, bool) or dim not in (1, -1) or const_value(get_kw(v, "keepdim")):
+        return False
+    inner = _operand(tb, single_atom(tb, summed), "log")
+    if inner is None:
+        return False
+    from fractions import Fraction
+    eps = inner.t.get((), Fraction(0)) - 1
+    rest = {m: c for m, c in inner.t.items() if m != ()}
+    if not (0 < eps <= Fraction(1, 1000)) or len(rest) != 1:
+        return False
+    (m, c), = rest.items()
+    if c != -1:
+        return False
+    if m == ((action, 2),):
+        return True
+    sq = tb.atoms.get(m[0][0]) if len(m) == 1 and m[0][1] == 1 else None
+    base = _operand(tb, sq, "pow")
+    if base is not None:
+        expo = const_value(get_kw(sq.node, "exponent", 1 if dotted(sq.node.func.value) in ("torch", "np") else 0))
+        return base == Poly.atom(action) and expo == 2 and not isinstance(expo, bool)
+    base = _operand(tb, sq, "square")
+    return base is not None and base == Poly.atom(action)
+
+
 def run(ck: Check, repo: Repo) -> None:
     ck.not_decided += ["that the reported number equals the density (semantics of torch.distributions)",
                        "that sampled actions lie in the support (library behaviour)"]
@@ -261,44 +365,179 @@ def _handlers(ck: Check, repo: Repo) -> None:
     ck.ob("C16.2", si, si.node, _has_choice(si.node, '$tensor.sum(dim=1) if len($tensor.shape) > 1 else $tensor'), "sum_independent_tensor sums over dim 1 of batched values",
           construct="sum_independent_tensor")
     mc = repo.fn(DM, "MultiCategoricalHandler.log_prob")
-    src = ast.unparse(mc.node)
-    ck.ob("C16.2", mc, mc.node, has(src, 'torch.unbind($action, dim=1)') and has(src, 'zip($distribution, $unbinded_actions)'), "component k of the action is evaluated under component distribution k",
-          construct="multi-categorical pairing")
+    paired, why = _component_pairing(mc)
+    ck.ob("C16.2", mc, mc.node, paired, "component k of the action is evaluated under component distribution k", detail=why, construct="multi-categorical pairing")
+
+
+def _component_pairing(fn: Fn) -> Tuple[bool, str]:
+    """Every component log-probability `d.log_prob(a)` of a handler for a list of distributions takes d and a from the same position of one joint walk: d is
+    element k of the `distribution` parameter and a is column k of the `action` parameter (element k of its unbind along dim 1, or action[:, k]).  The walk may
+    be a comprehension or a loop, over zip(...) / enumerate(...) / one collection indexed by the counter; the collections may be passed through locals."""
+    from ..terms import for_binding
+    cfg = CFG(fn.node)
+    if len(fn.named_params) < 3:
+        return False, "no (distribution, action) parameters"
+    p_dist, p_act = fn.named_params[1], fn.named_params[2]
+    parent = {id(ch): x for x in ast.walk(fn.node) for ch in ast.iter_child_nodes(x)}
+
+    def defs_of(name: str, at: Optional[Node]) -> List[Node]:
+        defs = cfg.defs_reaching(at, name) if at is not None else []
+        return [d for d in defs if not cfg.dominates(at, d)] if at is not None and at.kind == "for" else defs  # the iterable is evaluated before the loop binds anything
+
+    def origin(e: ast.AST, at: Optional[Node]) -> Tuple[ast.AST, Optional[Node]]:
+        """The expression a value was computed by: locals with one plain definition are looked through."""
+        for _ in range(6):
+            defs = defs_of(e.id, at) if isinstance(e, ast.Name) else []
+            v = cfg.value_of_def(defs[0], e.id) if len(defs) == 1 and defs[0].kind == "stmt" else None
+            if v is None:
+                break
+            e, at = v, defs[0]
+        return e, at
+
+    def is_param(e: ast.AST, at: Optional[Node], name: str) -> bool:
+        e, at = origin(e, at)
+        defs = defs_of(e.id, at) if isinstance(e, ast.Name) and e.id == name else []
+        return bool(defs) and all(d.kind == "entry" for d in defs)
+
+    def is_columns(e: ast.AST, at: Optional[Node]) -> bool:
+        """The columns of the action, in order: torch.unbind(action, dim=1) / action.unbind(1)."""
+        e, at = origin(e, at)
+        if not (isinstance(e, ast.Call) and last_attr(e) == "unbind" and isinstance(e.func, ast.Attribute)):
+            return False
+        free = dotted(e.func.value) == "torch"
+        what = get_kw(e, "input", 0) if free else e.func.value
+        dim = const_value(get_kw(e, "dim", 1 if free else 0))
+        return what is not None and is_param(what, at, p_act) and not isinstance(dim, bool) and dim in (1, -1)
+
+    def walk_of(x: ast.Name):
+        """(identity, target, iterable, node, filtered?) of the comprehension clause or loop that binds the local read at x."""
+        n = parent.get(id(x))
+        while n is not None and n is not fn.node:
+            for g in (n.generators if isinstance(n, (ast.ListComp, ast.GeneratorExp, ast.SetComp)) else []):
+                if any(isinstance(t, ast.Name) and t.id == x.id for t in ast.walk(g.target)):
+                    return id(g), g.target, g.iter, cfg.node_of(n), bool(g.ifs) or len(n.generators) > 1
+            n = parent.get(id(n))
+        at = cfg.node_of(x)
+        defs = cfg.defs_reaching(at, x.id) if at is not None else []
+        if len(defs) == 1 and defs[0].kind == "for" and not defs[0].ast.orelse:
+            skipped = any(cfg.dominates(defs[0], t) for _, _, t in cfg.guards_at(at)) or any(isinstance(y, (ast.Continue, ast.Break)) for y in ast.walk(defs[0].ast))
+            return id(defs[0].ast), defs[0].ast.target, defs[0].ast.iter, defs[0], skipped
+        return None
+
+    def covers(it: ast.AST, at: Optional[Node]) -> bool:
+        """The iterable has one element per component: the distribution, the columns of the action, or several of these side by side."""
+        it, at = origin(it, at)
+        if isinstance(it, ast.Call) and call_name(it) == "zip" and it.args and not it.keywords:
+            return all(covers(a, at) for a in it.args)
+        return is_param(it, at, p_dist) or is_columns(it, at)
+
+    def counts(k: ast.AST) -> Optional[int]:
+        """The walk of which the local k is the running index (0, 1, 2, ... over all components)."""
+        w = walk_of(k) if isinstance(k, ast.Name) else None
+        if w is None:
+            return None
+        wid, tgt, it, at, _ = w
+        if isinstance(it, ast.Call) and call_name(it) == "enumerate" and len(it.args) == 1 and not it.keywords and isinstance(tgt, (ast.Tuple, ast.List)) and len(tgt.elts) == 2 \
+                and isinstance(tgt.elts[0], ast.Name) and tgt.elts[0].id == k.id:
+            return wid if covers(it.args[0], at) else None
+        if isinstance(it, ast.Call) and call_name(it) == "range" and len(it.args) == 1 and not it.keywords and isinstance(tgt, ast.Name) \
+                and isinstance(it.args[0], ast.Call) and call_name(it.args[0]) == "len" and len(it.args[0].args) == 1:
+            return wid if covers(it.args[0].args[0], at) else None
+        return None
+
+    def element(e: ast.AST):
+        """(walk, collection, node, "row" | "column"): e is element k / column k of the collection in round k of the walk."""
+        if isinstance(e, ast.Name):
+            w = walk_of(e)
+            if w is None or w[4]:
+                return None
+            b = for_binding(ast.For(target=w[1], iter=w[2], body=[], orelse=[]), e.id)
+            if b is None or b[1] not in ("zip", "iter") or not covers(w[2].args[0] if isinstance(w[2], ast.Call) and call_name(w[2]) == "enumerate" and w[2].args else w[2], w[3]):
+                return None
+            return w[0], b[0], w[3], "row"
+        if isinstance(e, ast.Subscript):
+            sl = e.slice
+            col = isinstance(sl, ast.Tuple) and len(sl.elts) == 2 and ((isinstance(sl.elts[0], ast.Slice) and sl.elts[0].lower is None and sl.elts[0].upper is None and sl.elts[0].step is None)
+                                                                      or (isinstance(sl.elts[0], ast.Constant) and sl.elts[0].value is Ellipsis))
+            k = sl.elts[1] if col else sl
+            wid = counts(k)
+            w = walk_of(k) if wid is not None else None
+            if w is None or w[4]:
+                return None
+            return wid, e.value, cfg.node_of(e), "column" if col else "row"
+        return None
+
+    calls = [c for c in calls_in(fn.node) if last_attr(c) == "log_prob" and isinstance(c.func, ast.Attribute)]
+    if not calls:
+        return False, "no component log-probability is taken"
+    for c in calls:
+        arg = get_kw(c, "value", 0)
+        d, a = element(c.func.value), element(arg) if arg is not None else None
+        if d is None or a is None:
+            return False, f"`{short(c, 60)}`: the distribution / the action evaluated is not the element of a walk over all components"
+        if d[0] != a[0]:
+            return False, f"`{short(c, 60)}`: distribution and action come from different walks (every pair of components, not component k with component k)"
+        if not (d[3] == "row" and is_param(d[1], d[2], p_dist)):
+            return False, f"`{short(c, 60)}`: evaluated under `{short(d[1], 40)}`, which is not component k of the distribution"
+        if not ((a[3] == "row" and is_columns(a[1], a[2])) or (a[3] == "column" and is_param(a[1], a[2], p_act))):
+            return False, f"`{short(c, 60)}`: evaluated at `{short(a[1], 40)}`, which is not column k (dim 1) of the action"
+    return True, ""
 
 
 def _log_prob(ck: Check, repo: Repo) -> None:
     fn = repo.fn(DM, "TorchDistribution.log_prob")
-    cfg = CFG(fn.node)
-    tb = TermBuilder(repo, fn, cfg=cfg, depth=0)
-    calls = [c for c in calls_in(fn.node) if call_name(c) == "self._handler.log_prob"]
+
+    def density_calls(root: ast.AST) -> List[ast.Call]:
+        return [c for c in calls_in(root) if call_name(c) == "self._handler.log_prob"]
+    calls = density_calls(fn.node)
     ck.floor("C16.3", len(calls), 1, "handler.log_prob call in TorchDistribution.log_prob", fn=fn)
-    pa = "param:TorchDistribution.log_prob.action"
     for c in calls:
-        n = cfg.node_of(c)
-        ck.ob("C16.3", fn, c, dotted(c.args[0]) == "self.distribution", "the density is that of the wrapped distribution")
-        t = tb.term(c.args[1], n)
-        alts = expand_phi(tb, t)
-        for i, a in enumerate(alts):
-            dep = mentions(tb, a, lambda x: x.key == pa)
-            cond = " (every path)"
-            if len(alts) > 1:
-                cond = " (squashed path)" if mentions(tb, a, lambda x: x.kind == "attr" and "sampled_action" in x.name) or "atanh" in a.key() else " (plain path)"
-            ck.ob("C16.3", fn, c.args[1], dep,
-                  f"the value whose density is evaluated derives from the `action` argument{cond}",
-                  detail=f"density argument = {a.key()[:120]}" + ("" if dep else ": it is the action sampled by the latest forward pass, not the action passed in — "
-                                                                  "re-evaluating a stored action returns the log-probability of an unrelated fresh sample"),
-                  construct=f"density argument{cond}: {a.key()[:100]}")
-    # ---- C16.4 correction
-    subs = [n for n in cfg.live_nodes() if n.kind == "stmt" and isinstance(n.ast, ast.AugAssign) and isinstance(n.ast.op, ast.Sub)]
-    ok = False
-    for n in subs:
-        g = [(ast.unparse(gg), pol) for gg, pol, _ in cfg.guards_at(n)]
-        v = n.ast.value
-        s = ast.unparse(v)
-        form = isinstance(v, ast.Call) and last_attr(v) == "sum" and const_value(get_kw(v, "dim", 0)) == 1 and "torch.log(1 - action.pow(2) +" in s
-        ok = ("self.squash_output", True) in g and form
-        ck.ob("C16.4", fn, n.ast, ok, "under squash_output the correction sum_i log(1 - a_i^2 + eps) over dim 1 is subtracted", detail=s[:100])
-    ck.ob("C16.4", fn, fn.node, len(subs) == 1, "exactly one squash correction", construct="squash correction in log_prob")
+        ck.ob("C16.3", fn, c, dotted(get_kw(c, "distribution", 0) or c) == "self.distribution", "the density is that of the wrapped distribution")
+    # the two configurations of the wrapper: the code that runs with squash_output set and the code that runs without it (see _assume)
+    pa = f"param:{fn.qualname}.{(fn.named_params + ['?', '?'])[1]}"
+    extras: Dict[str, dict] = {}  # what a returned value consists of besides the handler's log-probability: term -> where / with which factors it is added
+    exact = True  # every returned value is the handler's log-probability, once, plus exactly one other term when squashing and nothing else otherwise
+    n_rets = {True: 0, False: 0}  # values handed back per configuration
+    for cond, squash in ((" (squashed path)", True), (" (plain path)", False)):
+        view = _assume(fn.node, "self.squash_output", squash)
+        cfg = CFG(view)
+        tb = TermBuilder(repo, fn, cfg=cfg, depth=0)
+        for c in density_calls(view):
+            n = cfg.node_of(c)
+            arg = get_kw(c, "action", 1)
+            if n is None or arg is None:
+                continue  # not executed in this configuration
+            for a in expand_phi(tb, tb.term(arg, n)):
+                dep = mentions(tb, a, lambda x: x.key == pa)
+                ck.ob("C16.3", fn, arg, dep,
+                      f"the value whose density is evaluated derives from the `action` argument{cond}",
+                      detail=f"density argument = {a.key()[:120]}" + ("" if dep else ": it is the action sampled by the latest forward pass, not the action passed in — "
+                                                                      "re-evaluating a stored action returns the log-probability of an unrelated fresh sample"),
+                      construct=f"density argument{cond}: {a.key()[:100]}")
+        # ---- C16.4 correction: the value handed back in this configuration, as a sum of terms
+        for r in [n for n in cfg.live_nodes() if n.kind == "stmt" and isinstance(n.ast, ast.Return)]:
+            if r.ast.value is None:
+                exact = False
+                continue
+            for val in expand_phi(tb, tb.term(r.ast.value, r)):
+                n_rets[squash] += 1
+                density, others = 0, 0
+                for m, coeff in val.t.items():
+                    a = tb.atoms.get(m[0][0]) if len(m) == 1 and m[0][1] == 1 else None
+                    if a is not None and a.kind == "call" and isinstance(a.node, ast.Call) and call_name(a.node) == "self._handler.log_prob":
+                        density += coeff
+                        continue
+                    others += abs(coeff)
+                    key = "*".join(k if e == 1 else f"{k}^{e}" for k, e in m) or "1"
+                    site = cfg.node_of(a.node) if a is not None and a.node is not None else None
+                    e = extras.setdefault(key, {"at": site.ast if site is not None else r.ast, "form": a is not None and _is_tanh_correction(tb, a, pa), "factors": set(), "plain": False})
+                    e["factors"].add(coeff)
+                    e["plain"] = e["plain"] or not squash
+                exact = exact and density == 1 and others == (1 if squash else 0)
+    for key, e in extras.items():
+        ck.ob("C16.4", fn, e["at"], e["form"] and e["factors"] == {-1} and not e["plain"], "under squash_output the correction sum_i log(1 - a_i^2 + eps) over dim 1 is subtracted",
+              detail=f"{key[:100]} enters the returned log-probability with factor {sorted(str(f) for f in e['factors'])}" + (", also without squash_output" if e["plain"] else ""))
+    ck.ob("C16.4", fn, fn.node, exact and all(n_rets.values()), "exactly one squash correction", construct="squash correction in log_prob")
     sm = repo.fn(DM, "TorchDistribution.sample")
     scfg = CFG(sm.node)
     rets = [(v, gs) for n in scfg.live_nodes() if n.kind == "stmt" and isinstance(n.ast, ast.Return) for v, gs in _alt_defs(scfg, n)]
@@ -346,23 +585,49 @@ def _forward(ck: Check, repo: Repo) -> None:
                 return False
         return True
 
-    is_logits = False
-    if len(dist_set) == 1:
-        v = dist_set[0].ast.value
-        is_logits = isinstance(v, ast.Call) and call_name(v) == "self.get_distribution" and len(v.args) == 1 and not v.keywords and isinstance(v.args[0], ast.Name) \
-            and from_net(v.args[0].id, dist_set[0])
-    ok = len(dist_set) == 1 and is_logits and cfg.postdominates(dist_set[0], cfg.entry)
+    # "the new distribution": the value of the one get_distribution call of this forward pass — wherever it is kept (the wrapper's attribute, a local, both)
+    builds = [c for c in calls_in(fn.node) if call_name(c) == "self.get_distribution"]
+    built = cfg.node_of(builds[0]) if len(builds) == 1 else None
+    is_logits = built is not None and len(builds[0].args) == 1 and not builds[0].keywords and isinstance(builds[0].args[0], ast.Name) and from_net(builds[0].args[0].id, built)
+
+    def holds_new(e: Optional[ast.AST], at: Node, depth: int = 0) -> bool:
+        """e, evaluated at node `at`, is the distribution built by this call: the get_distribution call itself, or a local / an attribute every reaching
+        definition of which binds it to that distribution (an attribute must have been set on every path to `at`: it keeps the previous call's value otherwise)."""
+        if built is None or e is None or depth > 6:
+            return False
+        if e is builds[0]:
+            return True
+        key = dotted(e)
+        defs = cfg.defs_reaching(at, key) if "?" not in key else []
+        if not defs or (not isinstance(e, ast.Name) and cfg.path_avoiding(cfg.entry, {at.id}, {d.id for d in defs}) is not None):
+            return False
+        return all(d.kind == "stmt" and all(holds_new(v, d, depth + 1) for v in _arms(cfg.value_of_def(d, key))) for d in defs)
+
+    def comes_from(e: Optional[ast.AST], at: Node, src: Node, depth: int = 0) -> bool:
+        """The local e, read at node `at`, is the value bound at node `src` (or a copy of it), whichever path was taken."""
+        if not isinstance(e, ast.Name) or depth > 6:
+            return False
+        defs = cfg.defs_reaching(at, e.id)
+        return bool(defs) and all(d is src or (d.kind == "stmt" and all(comes_from(v, d, src, depth + 1) for v in _arms(cfg.value_of_def(d, e.id)))) for d in defs)
+
+    def taken_of_new(meth: str) -> List[Node]:
+        """The bindings `x = <the new distribution>.<meth>(...)`."""
+        return [n for n in cfg.live_nodes() if n.kind == "stmt" and isinstance(n.ast, ast.Assign) and len(n.ast.targets) == 1 and isinstance(n.ast.targets[0], ast.Name)
+                and isinstance(n.ast.value, ast.Call) and isinstance(n.ast.value.func, ast.Attribute) and n.ast.value.func.attr == meth and holds_new(n.ast.value.func.value, n)]
+
+    # the wrapper keeps the new distribution: whichever way a forward pass ends, self.dist has been bound to it (log_prob() of the wrapper evaluates self.dist)
+    ok = is_logits and bool(dist_set) and holds_new(dist_set[0].ast.targets[0], cfg.exit)
     ck.ob("C16.5", fn, dist_set[0].ast if dist_set else fn.node, ok, "every forward pass rebuilds the distribution from this call's logits")
-    smp = [n for n in cfg.live_nodes() if n.kind == "stmt" and isinstance(n.ast, ast.Assign) and ast.unparse(n.ast.value) == "self.dist.sample()"]
-    lp = [n for n in cfg.live_nodes() if n.kind == "stmt" and isinstance(n.ast, ast.Assign) and isinstance(n.ast.value, ast.Call) and call_name(n.ast.value) == "self.dist.log_prob"]
-    ok = len(smp) == 1 and len(lp) == 1 and dotted(lp[0].ast.value.args[0]) == dotted(smp[0].ast.targets[0]) and cfg.dominates(dist_set[0], smp[0]) and cfg.dominates(smp[0], lp[0]) if dist_set else False
+    smp, lp, ent = taken_of_new("sample"), taken_of_new("log_prob"), taken_of_new("entropy")
+    ok = len(smp) == 1 and len(lp) == 1 and len(lp[0].ast.value.args) + len(lp[0].ast.value.keywords) == 1 and comes_from(get_kw(lp[0].ast.value, "action", 0), lp[0], smp[0])
     ck.ob("C16.5", fn, lp[0].ast if lp else fn.node, ok, "the log-probability reported is that of the action just sampled from the new distribution")
     rets = [n for n in cfg.live_nodes() if n.kind == "stmt" and isinstance(n.ast, ast.Return)]
-    ok = bool(rets) and bool(smp) and bool(lp) and all(isinstance(r.ast.value, ast.Tuple) and [dotted(x) for x in r.ast.value.elts][:2] == [dotted(smp[0].ast.targets[0]), dotted(lp[0].ast.targets[0])] for r in rets)
+    ok = bool(rets) and bool(smp) and bool(lp) and all(isinstance(r.ast.value, ast.Tuple) and len(r.ast.value.elts) == 3 and comes_from(r.ast.value.elts[0], r, smp[0])
+                                                      and comes_from(r.ast.value.elts[1], r, lp[0]) and any(comes_from(r.ast.value.elts[2], r, e) for e in ent) for r in rets)
     ck.ob("C16.5", fn, rets[0].ast if rets else fn.node, ok, "forward returns (that action, that log-probability, entropy)")
     # logits masked before the distribution is built
     masks = [cfg.node_of(c) for c in calls_in(fn.node) if call_name(c) == "self.apply_mask"]
-    ok = len(masks) == 1 and masks[0] is not None and dist_set and cfg.dominates(cfg.node_of(calls_in(fn.node)[0]), masks[0]) and is_logits and masks[0].id in chain
+    ok = len(masks) == 1 and masks[0] is not None and built is not None and cfg.dominates(cfg.node_of(calls_in(fn.node)[0]), masks[0]) and is_logits and masks[0].id in chain
     g = [(ast.unparse(gg), pol) for c in calls_in(fn.node) if call_name(c) == "self.apply_mask" for gg, pol in _expr_guards(cfg, c)] if masks and masks[0] else []
     ck.ob("C16.7", fn, masks[0].ast if masks and masks[0] else fn.node, ok and ("action_mask is not None", True) in g,
           "when a mask is given the masked logits (and nothing else) parameterise the distribution")
@@ -948,6 +1213,19 @@ _AP_DISPATCH = ("        if isinstance(self.action_space, spaces.Discrete):\n   
                 "            split_logits = torch.split(logits, splits, dim=1)\n\n            # Apply mask to each split\n" + _AP_BUILD +
                 "\n            masked_logits = torch.cat(masked_logits, dim=1)\n        else:\n            raise NotImplementedError(\n"
                 "                f\"Action space {self.action_space} not supported.\"\n            )\n\n        return masked_logits\n")
+_MC_LP = ("        unbinded_actions = torch.unbind(action, dim=1)\n        multi_log_prob = [\n            dist.log_prob(act) for dist, act in zip(distribution, unbinded_actions)\n        ]\n")
+_MC_LOOP = ("        multi_log_prob = []\n        for component, component_action in zip(distribution, action.unbind(dim=1)):\n"
+            "            multi_log_prob.append(component.log_prob(component_action))\n")
+_LP_BODY = ("        _action = action if not self.squash_output else self.sampled_action\n\n        log_prob = self._handler.log_prob(self.distribution, _action)\n\n"
+            "        # Correction for squashed outputs as per SAC paper:\n        # See https://arxiv.org/html/2410.16739v1\n        if self.squash_output:\n"
+            "            log_prob -= torch.log(1 - action.pow(2) + 1e-6).sum(dim=1)\n\n        return log_prob\n")
+_LP_EARLY = ("        if not self.squash_output:\n            return self._handler.log_prob(self.distribution, action)\n\n"
+             "        log_prob = self._handler.log_prob(self.distribution, self.sampled_action)\n        tanh_correction = torch.log(1 - action.pow(2) + 1e-6).sum(dim=1)\n"
+             "        return log_prob - tanh_correction\n")
+_FW_BODY = ("        # Distribution from logits\n        self.dist = self.get_distribution(logits)\n\n        # Sample action, compute log probability and entropy\n"
+            "        action = self.dist.sample()\n        log_prob = self.dist.log_prob(action)\n        entropy = self.dist.entropy()\n        return action, log_prob, entropy\n")
+_FW_LOCAL = ("        dist = self.get_distribution(logits)\n        self.dist = dist\n\n        action = dist.sample()\n        entropy = dist.entropy()\n"
+             "        log_prob = dist.log_prob(action)\n        return action, log_prob, entropy\n")
 VARIANTS = [
     ("ppo-acting-path-through-rescaling-forward", "agilerl/algorithms/ppo.py", "        latent_pi = self.actor.extract_features(obs)\n        action, log_prob, entropy = self.actor.forward_head(\n            latent_pi, action_mask=action_mask\n        )",
      "        latent_pi = self.actor.extract_features(obs)\n        action, log_prob, entropy = self.actor(obs, action_mask=action_mask)", "fire", "C16.11"),
@@ -1040,4 +1318,35 @@ VARIANTS = [
     ('mask-conversion-in-steps-ok', _DF, _AP_CONV, '        as_bool = torch.as_tensor(mask, device=self.device).bool()\n        mask = as_bool.view(logits.shape)\n', 'silent', None),
     ('mask-conversion-in-steps-flattened', _DF, _AP_CONV, '        as_bool = torch.as_tensor(mask, dtype=torch.bool, device=self.device)\n        mask = as_bool.view(-1)\n', 'fire', 'C16.7'),
     ('mask-conversion-not-boolean', _DF, _AP_CONV, '        mask = torch.as_tensor(mask, device=self.device).view(logits.shape)\n', 'fire', 'C16.7'),
+    # the components of a multi-categorical action: a comprehension <-> the loop that appends; torch.unbind(a, dim=1) <-> a.unbind(dim=1), directly or through a local;
+    # zip of the two collections <-> one collection and the running index
+    ('multicat-components-in-a-loop-ok', _DF, _MC_LP, _MC_LOOP, 'silent', None),
+    ('multicat-components-by-index-ok', _DF, _MC_LP, '        multi_log_prob = [dist.log_prob(action[:, k]) for k, dist in enumerate(distribution)]\n', 'silent', None),
+    ('multicat-loop-action-columns-reversed', _DF, _MC_LP, _MC_LOOP.replace('action.unbind(dim=1))', 'reversed(action.unbind(dim=1)))'), 'fire', 'C16.2'),
+    ('multicat-loop-every-pair-of-components', _DF, _MC_LP, '        multi_log_prob = []\n        for component in distribution:\n            for component_action in action.unbind(dim=1):\n'
+     '                multi_log_prob.append(component.log_prob(component_action))\n', 'fire', 'C16.2'),
+    ('multicat-loop-components-skipped', _DF, _MC_LP, '        multi_log_prob = []\n        for component, component_action in zip(distribution, action.unbind(dim=1)):\n            if component_action.any():\n'
+     '                multi_log_prob.append(component.log_prob(component_action))\n', 'fire', 'C16.2'),
+    ('multicat-action-split-on-the-batch-axis', _DF, 'unbinded_actions = torch.unbind(action, dim=1)', 'unbinded_actions = torch.unbind(action, dim=0)', 'fire', 'C16.2'),
+    ('multicat-index-of-another-walk', _DF, _MC_LP, '        multi_log_prob = [dist.log_prob(action[:, 0]) for k, dist in enumerate(distribution)]\n', 'fire', 'C16.2'),
+    # TorchDistribution.log_prob: one body with two conditionals <-> an early return for the plain configuration; `x -= c` <-> `return x - c` (c through a local);
+    # the findings are about the configuration (squashed / plain), not about the shape of the branches
+    ('squash-early-return-out-of-place-ok', _DF, _LP_BODY, _LP_EARLY, 'silent', None),
+    ('squash-correction-spelled-otherwise-ok', _DF, 'log_prob -= torch.log(1 - action.pow(2) + 1e-6).sum(dim=1)', 'log_prob = log_prob - torch.sum(torch.log(1.0 + 1e-6 - action ** 2), dim=-1)', 'silent', None),
+    ('squash-early-return-correction-twice', _DF, _LP_BODY, _LP_EARLY.replace('return log_prob - tanh_correction', 'return log_prob - tanh_correction - tanh_correction'), 'fire', 'C16.4'),
+    ('squash-early-return-no-correction', _DF, _LP_BODY, _LP_EARLY.replace('return log_prob - tanh_correction', 'return log_prob'), 'fire', 'C16.4'),
+    ('squash-early-return-correction-added', _DF, _LP_BODY, _LP_EARLY.replace('return log_prob - tanh_correction', 'return log_prob + tanh_correction'), 'fire', 'C16.4'),
+    ('squash-early-return-correction-on-the-plain-path', _DF, _LP_BODY, _LP_EARLY.replace('self.distribution, action)\n', 'self.distribution, action) - torch.log(1 - action.pow(2) + 1e-6).sum(dim=1)\n'), 'fire', 'C16.4'),
+    ('squash-early-return-for-the-squashed-path', _DF, _LP_BODY, _LP_EARLY.replace('if not self.squash_output:', 'if self.squash_output:'), 'fire', 'C16.4'),
+    ('squash-early-return-plain-path-uses-sampled', _DF, _LP_BODY, _LP_EARLY.replace('self.distribution, action)\n', 'self.distribution, self.sampled_action)\n'), 'fire', 'C16.3'),
+    ('squash-correction-log-of-the-sum', _DF, 'log_prob -= torch.log(1 - action.pow(2) + 1e-6).sum(dim=1)', 'log_prob = log_prob - torch.log((1 - action.pow(2)).sum(dim=1) + 1e-6)', 'fire', 'C16.4'),
+    ('squash-correction-of-the-sampled-value', _DF, 'log_prob -= torch.log(1 - action.pow(2) + 1e-6).sum(dim=1)', 'log_prob -= torch.log(1 - self.sampled_action.pow(2) + 1e-6).sum(dim=1)', 'fire', 'C16.4'),
+    ('density-argument-arms-swapped', _DF, '_action = action if not self.squash_output else self.sampled_action', '_action = action if self.squash_output else self.sampled_action', 'fire', 'C16.3'),
+    # EvolvableDistribution.forward: the new distribution kept in the attribute only <-> in a local as well; independent statements in either order
+    ('forward-dist-through-a-local-ok', _DF, _FW_BODY, _FW_LOCAL, 'silent', None),
+    ('forward-local-dist-not-kept', _DF, _FW_BODY, _FW_LOCAL.replace('        self.dist = dist\n', ''), 'fire', 'C16.5'),
+    ('forward-local-dist-kept-on-one-path', _DF, _FW_BODY, _FW_LOCAL.replace('        self.dist = dist\n', '        if self.dist is None:\n            self.dist = dist\n'), 'fire', 'C16.5'),
+    ('forward-local-logprob-of-a-second-sample', _DF, _FW_BODY, _FW_LOCAL.replace('dist.log_prob(action)', 'dist.log_prob(dist.sample())'), 'fire', 'C16.5'),
+    ('forward-sample-from-the-previous-dist', _DF, _FW_BODY, _FW_LOCAL.replace('        dist = self.get_distribution(logits)\n        self.dist = dist\n', '        dist = self.dist\n        self.dist = self.get_distribution(logits)\n'), 'fire', 'C16.5'),
+    ('forward-entropy-of-the-previous-dist', _DF, _FW_BODY, _FW_LOCAL.replace('        dist = self.get_distribution(logits)\n        self.dist = dist\n\n', '        old = self.dist\n        dist = self.get_distribution(logits)\n        self.dist = dist\n\n').replace('dist.entropy()', 'old.entropy()'), 'fire', 'C16.5'),
 ]
